@@ -181,10 +181,11 @@ inline ApiCase gen_vecop(const MODULE* mod, const VecOp& op, const VecShape& s0,
   bool b_is_a = (s.alias == AL_A_B || s.alias == AL_RES_A_B);
   // structured rows next to the injective probes: limb 1 (mod 4) of `a` holds only multiples of 2^32, limb 2 (mod 4) of `b` only
   // zeros, limb 3 (mod 4) of `a` only zeros (a value-keyed shortcut - "this row is zero" - must still be right)
-  auto a_val = [&](size_t e, uint64_t sl) { uint64_t limb = sl ? e / sl : 0, pos = sl ? e % sl : e; int64_t v = vec_a_value(e);
+  const bool zgap = ((s.rs + s.as + s.bs) & 1) != 0;  // every other shape: the stride padding of the sources is zero (a shortcut that looks at the wrong window sees zeros there)
+  auto a_val = [&](size_t e, uint64_t sl) { uint64_t limb = sl ? e / sl : 0, pos = sl ? e % sl : e; int64_t v = vec_a_value(e); if (zgap && pos >= N) v = 0;
     if (pos < N && limb % 4 == 1) v = (v >> 32) * (INT64_C(1) << 32); if (pos < N && limb % 4 == 3) v = 0;
     if (pos < N && limb % 8 == 6 && pos != N - 1) v = 0;  /* limb 6 (mod 8): zero except the last coefficient */ return v; };
-  auto b_val = [&](size_t e, uint64_t sl) { uint64_t limb = sl ? e / sl : 0, pos = sl ? e % sl : e; int64_t v = vec_b_value(e);
+  auto b_val = [&](size_t e, uint64_t sl) { uint64_t limb = sl ? e / sl : 0, pos = sl ? e % sl : e; int64_t v = vec_b_value(e); if (zgap && pos >= N) v = 0;
     if (pos < N && limb % 4 == 2) v = 0; return v; };
   if (ia >= 0) for (size_t e = 0; e < ae; ++e) put_i64(c.bufs[ia].init, e, a_val(e, s.asl));
   if (ib >= 0) for (size_t e = 0; e < be; ++e) put_i64(c.bufs[ib].init, e, b_is_a ? a_val(e, s.asl) : b_val(e, s.bsl));
